@@ -60,7 +60,7 @@ Definition scalar_tag (tg : N) (es : list entry) : option N :=
 
 Definition lit (s : string) : list N := map N_of_ascii (list_ascii_of_string s).
 
-Fixpoint expect (l p : list N) : option (list N) :=
+Fixpoint expect (l p : list N) {struct p} : option (list N) :=
   match p with
   | [] => Some l
   | c :: p' => match l with
@@ -88,6 +88,13 @@ Record descr := mkDescr {
   j_metadata : option (list N)
 }.
 
+(* exactly one closing brace *)
+Definition is_close (l : list N) : bool :=
+  match l with
+  | [] => false
+  | c :: r => match r with [] => c =? 125 | _ :: _ => false end
+  end.
+
 Definition parse_description (l : list N) : option descr :=
   match expect l (lit "{""frame_id"":") with None => None | Some l1 =>
   match number l1 with None => None | Some (fid, l2) =>
@@ -98,20 +105,14 @@ Definition parse_description (l : list N) : option descr :=
   match expect l6 (lit ",""hardware"":") with None => None | Some l7 =>
   match number l7 with None => None | Some (thw, l8) =>
   match expect l8 (lit "}") with None => None | Some l9 =>
-  match l9 with
+  if is_close l9 then Some (mkDescr fid hid trt thw None) else
+  match expect l9 (lit ",""metadata"":") with None => None | Some l10 =>
+  match l10 with
   | [] => None
-  | c :: r =>
-      if (c =? 125) && (match r with [] => true | _ => false end)
-      then Some (mkDescr fid hid trt thw None)
-      else
-        match expect l9 (lit ",""metadata"":") with None => None | Some l10 =>
-        match l10 with
-        | [] => None
-        | _ :: _ => if last l10 0 =? 125
-                    then Some (mkDescr fid hid trt thw (Some (removelast l10)))
-                    else None
-        end end
-  end end end end end end end end end end.
+  | _ :: _ => if last l10 0 =? 125
+              then Some (mkDescr fid hid trt thw (Some (removelast l10)))
+              else None
+  end end end end end end end end end end end.
 
 (* ------------------------------------------------------------------------------------------------ *)
 (* one directory                                                                                     *)
